@@ -477,14 +477,18 @@ class FlatSet : private Compare {
     return insert(std::forward<V>(v)).first;
   }
 
-  static bool value_equi(const_reference v1, const_reference v2) {
-    return !value_compare()(v1, v2) && !value_compare()(v2, v1);
-  }
-
   Compare &compRef() { return static_cast<Compare &>(*this); }
   const Compare &compRef() const { return static_cast<const Compare &>(*this); }
 
-  void eraseDuplicates() { _sortedVector.erase(std::unique(mbegin(), mend(), value_equi), end()); }
+  void eraseDuplicates() {
+    // equivalence is decided by the comparator of this set (it may be stateful)
+    const Compare &comp = compRef();
+    _sortedVector.erase(std::unique(mbegin(), mend(),
+                                    [&comp](const_reference v1, const_reference v2) {
+                                      return !comp(v1, v2) && !comp(v2, v1);
+                                    }),
+                        end());
+  }
 
   VecType _sortedVector;
 };
